@@ -523,6 +523,7 @@ type omap struct {
 	keys  []value
 	vals  []value
 	ktype types.Type
+	cell  value // one abstract memory location for the race monitor (Go's detector treats a map the same way)
 }
 
 // concreteKey returns a Go-comparable key for fully concrete basic/pointer keys.
@@ -570,6 +571,9 @@ func (in *interp) mapFind(m *omap, k value) int {
 }
 
 func (in *interp) mapLookup(m *omap, k value) (value, bool) {
+	if m != nil && in.race != nil {
+		in.race.read(in.sch.cur, &m.cell, false)
+	}
 	i := in.mapFind(m, k)
 	if i < 0 {
 		return nil, false
@@ -581,6 +585,9 @@ func (in *interp) mapInsert(m *omap, k, v value) {
 	if m == nil {
 		panic(targetPanic{v: "assignment to entry in nil map"})
 	}
+	if in.race != nil {
+		in.race.write(in.sch.cur, &m.cell, false)
+	}
 	i := in.mapFind(m, k)
 	if i >= 0 {
 		m.vals[i] = copyVal(v)
@@ -591,6 +598,9 @@ func (in *interp) mapInsert(m *omap, k, v value) {
 }
 
 func (in *interp) mapDelete(m *omap, k value) {
+	if m != nil && in.race != nil {
+		in.race.write(in.sch.cur, &m.cell, false)
+	}
 	i := in.mapFind(m, k)
 	if i < 0 {
 		return
